@@ -19,6 +19,12 @@ same file, [a == "lit"], [a != "lit"], [x and x[0] == "c"], [xs and xs[-1] in ("
 A Python list is a Coq list in the same order: append is [acc ++ [e]], pop under
 suppress(IndexError) is [removelast acc] (removelast [] = [])."""
 import ast
+
+
+def cn(n):
+    """Coq name of a Python function: underscores stripped; origin / _origin would clash."""
+    return {"origin": "origin_pub"}.get(n, n.strip("_"))
+
 import os
 import sys
 
@@ -652,6 +658,14 @@ class ProcFn:
     # ---- conditions
     def cond_bool(self, test, env):
         """a test that needs no narrowing, as a Coq bool"""
+        # n == DEFAULT_PORTS.get(scheme)      (the table regenerated into Generated/Tables.v)
+        if isinstance(test, ast.Compare) and len(test.ops) == 1 and isinstance(test.ops[0], ast.Eq) and isinstance(test.comparators[0], ast.Call) \
+                and ast.unparse(test.comparators[0].func) == "DEFAULT_PORTS.get" and len(test.comparators[0].args) == 1 and not test.comparators[0].keywords:
+            a, ta = self.expr(test.left, env)
+            b, tb = self.expr(test.comparators[0].args[0], env)
+            if ta == "int" and tb == "str":
+                return f"(opt_N_eqb (Some {a}) (default_port {b}))"
+            raise Untranslatable("comparison " + ast.unparse(test))
         if isinstance(test, ast.BoolOp):
             is_and = isinstance(test.op, ast.And)
             unit, zero = ("true", "false") if is_and else ("false", "true")
@@ -830,6 +844,12 @@ class ProcFn:
                     else:
                         raise Untranslatable("_cache must be the cache variable or {}")
                     return self.stmts(rest, env, r1)
+                if isinstance(v, ast.IfExp):             # self._x = a if <test that narrows> else b
+                    try:
+                        self.cond_bool(v.test, env)
+                    except Untranslatable:
+                        mk = lambda val: (lambda e1: self.stmts([ast.Assign(targets=[t0], value=val)] + rest, e1, rec))
+                        return self.branch(v.test, env, mk(v.body), mk(v.orelse))
                 x, tx = self.expr(v, env)
                 if tx != "str":
                     raise Untranslatable("field " + t0.attr + " of type " + tx)
@@ -910,13 +930,14 @@ class ProcFn:
             if ast.unparse(d).split("(")[0] not in ("lru_cache", "functools.lru_cache"):
                 raise Untranslatable("decorator " + ast.unparse(d))
         env, params = {}, []
+        anns = {"str": "str", "Union[str, None]": "optstr", "Union[int, None]": "optint"}
         for a in fd.args.args:
-            if a.annotation is None or ast.unparse(a.annotation) != "str":
+            if a.annotation is None or ast.unparse(a.annotation) not in anns:
                 raise Untranslatable("parameter " + a.arg)
-            env[a.arg] = "str"
+            env[a.arg] = anns[ast.unparse(a.annotation)]
             params.append(a.arg)
         body = self.stmts(list(fd.body), env, {})
-        ps = " ".join(f"({n} : str)" for n in params)
+        ps = " ".join(f"({n} : {self.COQ[env[n]]})" for n in params)
         return f"Definition gen_{fd.name} {ps} : result gen_url :=\n  {body}.", (["str"] * len(params), "gen_url")
 
 
@@ -966,7 +987,7 @@ class MethFn(ProcFn):
                 and env.get(e.func.value.id) == "url" and e.func.attr in self.methods and not e.args and not e.keywords:
             if self.methods[e.func.attr] == "rstr":
                 raise Untranslatable("call of a method that may raise: " + ast.unparse(e))
-            return f"(gen_{e.func.attr.strip('_')} {e.func.value.id})", self.methods[e.func.attr]
+            return f"(gen_{cn(e.func.attr)} {e.func.value.id})", self.methods[e.func.attr]
         if isinstance(e, ast.BoolOp) or isinstance(e, ast.Compare) or (isinstance(e, ast.UnaryOp) and isinstance(e.op, ast.Not)):
             return self.cond_bool(e, env), "bool"
         # self._cache["raw_user"] after self._cache_netloc()
@@ -1036,6 +1057,15 @@ class MethFn(ProcFn):
                 binds.append(("let", n.target.id, v))
                 return ast.copy_location(ast.Name(id=n.target.id, ctx=ast.Load()), n)
 
+            def visit_Call(self, n):
+                # get_str_query(*args, **kwargs): the model's single query argument stands for the pair
+                if ast.unparse(n) == "get_str_query(*args, **kwargs)" and env.get("args") == "qargs" and env.get("kwargs") == "qargs":
+                    tr.fresh += 1
+                    nm = f"get_str_query_{tr.fresh}"
+                    binds.append(("bindq", nm, None))
+                    return ast.copy_location(ast.Name(id=nm, ctx=ast.Load()), n)
+                return self.generic_visit(n)
+
             def visit_Attribute(self, n):
                 if isinstance(n.value, ast.Name) and env.get(n.value.id) == "url" and (
                         n.attr in tr.PROPS or (n.attr in tr.methods and tr.RT.get(tr.methods[n.attr], (False,))[0])):
@@ -1053,12 +1083,17 @@ class MethFn(ProcFn):
             return k(env)
         kind, nm, what = binds[0]
         e1 = dict(env)
+        if kind == "bindq":
+            if not self.fallible:
+                raise Untranslatable("get_str_query in a method that returns " + self.rett)
+            e1[nm] = "optstr"
+            return f"(match get_query B q with Err e => Err e | Ok {nm} => {self.with_binds(binds[1:], e1, k)} end)"
         if kind == "bind":
             obj, prop = what
             if prop in self.PROPS:
                 head, t = self.PROPS[prop]
             else:                       # a method of this file translated earlier, which may raise
-                head, t = "gen_" + prop.strip("_"), self.RT[self.methods[prop]][1]
+                head, t = "gen_" + cn(prop), self.RT[self.methods[prop]][1]
             if not self.fallible:
                 raise Untranslatable("a property that may raise in a method that returns " + self.rett)
             e1[nm] = t
@@ -1174,7 +1209,10 @@ class MethFn(ProcFn):
         ps = " ".join(f"({n} : url)" for n in names)
         base = {"str": "str", "bool": "bool", "strs": "list str", "optstr": "option str", "optint": "option N", "memo": "memo"}[self.rtype]
         rt = f"result ({base})" if self.fallible else base
-        return f"Definition gen_{fd.name.strip('_')} {ps} : {rt} :=\n  {body}.", (["url"] * len(names), self.rett)
+        return f"Definition gen_{cn(fd.name)} {ps} : {rt} :=\n  {body}.", (["url"] * len(names), self.rett)
+
+
+METHOD_PARAMS = {}     # method name -> [(parameter, default or None)] in the order of the generated definition
 
 
 class ModFn(MethFn):
@@ -1198,6 +1236,9 @@ class ModFn(MethFn):
     CALLEES["normalize_path_segments"] = ("normalize_path_segments", [("segments", "strs", None)], "strs", False)
     CALLEES["from_parts"] = ("from_parts", [("scheme", "str", None), ("netloc", "str", None), ("path", "str", None),
                                             ("query", "str", None), ("fragment", "str", None)], "url", False)
+
+    # from_parts_uncached is from_parts without the lru_cache: the same value (C07_source_from_parts_uncached)
+    CALLEES["from_parts_uncached"] = CALLEES["from_parts"]
 
     def expr(self, e, env):
         if isinstance(e, ast.BoolOp) and isinstance(e.op, ast.Or) and len(e.values) == 2 \
@@ -1236,6 +1277,22 @@ class ModFn(MethFn):
                 return f"(tl {a})", "str"
         if isinstance(e, ast.Tuple) and not e.elts:
             return "[]", "strs"
+        if isinstance(e, ast.Tuple) and e.elts and not any(isinstance(x, ast.Starred) for x in e.elts):      # (a, b) passed as a Sequence[str]
+            xs = [self.expr(x, env) for x in e.elts]
+            if all(t == "str" for _, t in xs):
+                return "[" + "; ".join(a for a, _ in xs) + "]", "strs"
+            raise Untranslatable("tuple " + ast.unparse(e))
+        if isinstance(e, ast.Call) and isinstance(e.func, ast.Name) and e.func.id == "str" and len(e.args) == 1 and not e.keywords:
+            a, ta = self.expr(e.args[0], env)        # str(x) of a value that is a str already (exact type only: the models pass str)
+            if ta == "str":
+                return a, "str"
+            raise Untranslatable("str() of " + str(ta))
+        if isinstance(e, ast.Call) and isinstance(e.func, ast.Name) and e.func.id == "bool" and len(e.args) == 1 and not e.keywords \
+                and isinstance(e.args[0], ast.BoolOp) and isinstance(e.args[0].op, ast.Or):
+            xs = [self.expr(x, env) for x in e.args[0].values]      # bool(a or b or c) on str values: some one is non-empty
+            if all(t == "str" for _, t in xs):
+                return "(" + " || ".join(f"(nonempty {a})" for a, _ in xs) + ")", "bool"
+            raise Untranslatable("bool() of " + ast.unparse(e.args[0]))
         if isinstance(e, ast.Call) and isinstance(e.func, ast.Attribute) and e.func.attr == "lstrip" and len(e.args) == 1 and not e.keywords:
             a, ta = self.expr(e.func.value, env)
             if ta == "str":
@@ -1306,7 +1363,7 @@ class ModFn(MethFn):
         # self.other_property translated earlier in this file (total)
         if isinstance(e, ast.Attribute) and isinstance(e.value, ast.Name) and env.get(e.value.id) == "url" \
                 and e.attr in self.methods and self.methods[e.attr] in ("strs", "str", "bool"):
-            return f"(gen_{e.attr.strip('_')} {e.value.id})", self.methods[e.attr]
+            return f"(gen_{cn(e.attr)} {e.value.id})", self.methods[e.attr]
         # x.raw_parts (total in the model)
         if isinstance(e, ast.Attribute) and isinstance(e.value, ast.Name) and env.get(e.value.id) == "url" and e.attr == "raw_parts":
             return f"(raw_parts {e.value.id})", "strs"
@@ -1346,6 +1403,8 @@ class ModFn(MethFn):
         return found
 
     def cond_bool(self, test, env):
+        if isinstance(test, ast.Name) and env.get(test.id) == "strset":        # truthiness of a set
+            return f"(match {test.id} with [] => false | _ :: _ => true end)"
         # x and x[-1].isdigit()
         if isinstance(test, ast.BoolOp) and isinstance(test.op, ast.And) and len(test.values) == 2 and isinstance(test.values[0], ast.Name) \
                 and env.get(test.values[0].id) == "str" and ast.unparse(test.values[1]) == test.values[0].id + "[-1].isdigit()":
@@ -1473,6 +1532,38 @@ class ModFn(MethFn):
         return super().branch(test, env, then_k, else_k)
 
     def stmts(self, body, env, rec):
+        # x = set(names) & self.query.keys()        (names: a tuple of str; the keys of the parsed query string)
+        if body and isinstance(body[0], ast.Assign) and len(body[0].targets) == 1 and isinstance(body[0].targets[0], ast.Name) \
+                and isinstance(body[0].value, ast.BinOp) and isinstance(body[0].value.op, ast.BitAnd) \
+                and isinstance(body[0].value.left, ast.Call) and ast.unparse(body[0].value.left.func) == "set" \
+                and len(body[0].value.left.args) == 1 and isinstance(body[0].value.left.args[0], ast.Name) \
+                and env.get(body[0].value.left.args[0].id) == "strs" and not body[0].value.left.keywords \
+                and isinstance(body[0].value.right, ast.Call) and isinstance(body[0].value.right.func, ast.Attribute) \
+                and body[0].value.right.func.attr == "keys" and not body[0].value.right.args and not body[0].value.right.keywords \
+                and isinstance(body[0].value.right.func.value, ast.Attribute) and body[0].value.right.func.value.attr == "query" \
+                and isinstance(body[0].value.right.func.value.value, ast.Name) and env.get(body[0].value.right.func.value.value.id) == "url":
+            x, names, obj = body[0].targets[0].id, body[0].value.left.args[0].id, body[0].value.right.func.value.value.id
+            e1 = dict(env)
+            e1[x] = "strset"
+            return (f"(let {x} : list str := List.filter (fun k0 : str => str_in k0 {names}) (map fst (query_pairs {obj})) in "
+                    f"{self.stmts(body[1:], e1, rec)})")
+        # return self.with_query(tuple((name, value) for name, value in self.query.items() if name not in x))
+        if body and isinstance(body[0], ast.Return) and isinstance(body[0].value, ast.Call) and isinstance(body[0].value.func, ast.Attribute) \
+                and body[0].value.func.attr == "with_query" and isinstance(body[0].value.func.value, ast.Name) \
+                and env.get(body[0].value.func.value.id) == "url" and self.methods.get("with_query") == self.rett \
+                and len(body[0].value.args) == 1 and not body[0].value.keywords and isinstance(body[0].value.args[0], ast.Call) \
+                and ast.unparse(body[0].value.args[0].func) == "tuple" and len(body[0].value.args[0].args) == 1 \
+                and isinstance(body[0].value.args[0].args[0], ast.GeneratorExp):
+            g = body[0].value.args[0].args[0]
+            obj = body[0].value.func.value.id
+            ok = len(g.generators) == 1 and ast.unparse(g.elt) == "(name, value)" and ast.unparse(g.generators[0].target) == "(name, value)" \
+                and ast.unparse(g.generators[0].iter) == obj + ".query.items()" and len(g.generators[0].ifs) == 1 and not g.generators[0].is_async
+            c = g.generators[0].ifs[0] if ok else None
+            if not (ok and isinstance(c, ast.Compare) and len(c.ops) == 1 and isinstance(c.ops[0], ast.NotIn) and ast.unparse(c.left) == "name"
+                    and isinstance(c.comparators[0], ast.Name) and env.get(c.comparators[0].id) == "strset"):
+                raise Untranslatable("statement " + ast.unparse(body[0])[:80])
+            return (f"(gen_with_query {obj} (QASeq (map qv_of_str (List.filter (fun kv : str * str => negb (str_in (fst kv) {c.comparators[0].id})) "
+                    f"(query_pairs {obj})))))")
         # if TYPE_CHECKING: assert ...
         if body and isinstance(body[0], ast.If) and ast.unparse(body[0].test) == "TYPE_CHECKING" and not body[0].orelse \
                 and all(isinstance(x, ast.Assert) for x in body[0].body):
@@ -1518,9 +1609,25 @@ class ModFn(MethFn):
             return f"(match {call} with Err e => Err e | Ok r0 => Ok {v} end)"
         if body and isinstance(body[0], ast.Return) and isinstance(body[0].value, ast.Call) and isinstance(body[0].value.func, ast.Attribute) \
                 and isinstance(body[0].value.func.value, ast.Name) and env.get(body[0].value.func.value.id) == "url" \
-                and body[0].value.func.attr in self.methods and self.methods[body[0].value.func.attr] == self.rett and not body[0].value.keywords:
-            args = [self.expr(a, env)[0] for a in body[0].value.args]
-            return f"(gen_{body[0].value.func.attr.strip('_')} {body[0].value.func.value.id} " + " ".join(args) + ")"
+                and body[0].value.func.attr in self.methods and self.methods[body[0].value.func.attr] == self.rett:
+            call = body[0].value
+            args = [self.expr(a, env)[0] for a in call.args]
+            if call.keywords or len(args) < len(METHOD_PARAMS.get(call.func.attr, args)):
+                params = METHOD_PARAMS.get(call.func.attr)
+                kws = {k.arg: k.value for k in call.keywords}
+                if params is None or None in kws or len(args) > len(params) or set(kws) - {p for p, _ in params[len(args):]}:
+                    raise Untranslatable("call " + ast.unparse(call))
+                for p, d in params[len(args):]:
+                    if p in kws:
+                        a, ta = self.expr(kws[p], env)
+                        if ta != "bool":
+                            raise Untranslatable("keyword argument " + p)
+                        args.append(a)
+                    elif d is True or d is False:
+                        args.append("true" if d else "false")
+                    else:
+                        raise Untranslatable("missing argument " + p)
+            return f"(gen_{cn(call.func.attr)} {call.func.value.id} " + " ".join(args) + ")"
         if body and isinstance(body[0], (ast.If, ast.Assign, ast.Return, ast.AugAssign)) and not (
                 isinstance(body[0], ast.Assign) and isinstance(body[0].targets[0], ast.Subscript)):
             node = body[0].test if isinstance(body[0], ast.If) else body[0].value
@@ -1550,6 +1657,16 @@ class ModFn(MethFn):
             if isinstance(body[0].op, ast.BitOr) and env.get(x) == "bool":
                 c = self.cond_bool(body[0].value, env)
                 return f"(let {x} : bool := {x} || {c} in {self.stmts(body[1:], env, rec)})"
+            if isinstance(body[0].op, ast.Add) and env.get(x) == "str":
+                if isinstance(body[0].value, ast.IfExp):
+                    c = self.cond_bool(body[0].value.test, env)
+                    a, ta = self.expr(body[0].value.body, env)
+                    b, tb = self.expr(body[0].value.orelse, env)
+                    if ta == tb == "str":
+                        return f"(let {x} : str := {x} ++ (if {c} then {a} else {b}) in {self.stmts(body[1:], env, rec)})"
+                v, tv = self.expr(body[0].value, env)
+                if tv == "str":
+                    return f"(let {x} : str := {x} ++ {v} in {self.stmts(body[1:], env, rec)})"
             if isinstance(body[0].op, ast.Add) and env.get(x) == "strs":
                 if isinstance(body[0].value, ast.IfExp):
                     c = self.cond_bool(body[0].value.test, env)
@@ -1652,8 +1769,14 @@ class ModFn(MethFn):
         return super().stmts(body, env, rec)
 
     def translate(self, fd):
-        if fd.args.vararg or fd.args.kwarg or fd.args.posonlyargs:
+        # (self, *args: Any, **kwargs: Any), used only as get_str_query(*args, **kwargs): one model argument q : qarg
+        qsig = fd.args.vararg is not None and fd.args.kwarg is not None and len(fd.args.args) == 1 and not fd.args.kwonlyargs \
+            and (fd.args.vararg.arg, fd.args.kwarg.arg) == ("args", "kwargs") \
+            and ast.unparse(fd.args.vararg.annotation) == "Any" and ast.unparse(fd.args.kwarg.annotation) == "Any"
+        if (fd.args.kwarg and not qsig) or fd.args.posonlyargs:
             raise Untranslatable("signature of " + fd.name)
+        if fd.args.vararg and not qsig and not (ast.unparse(fd.args.vararg.annotation) == "str" and len(fd.args.args) == 1):
+            raise Untranslatable("signature of " + fd.name)      # only (self, *xs: str, kw: bool = ...): xs is a tuple of str
         for d in fd.args.defaults:
             if not (isinstance(d, ast.Constant) and d.value in (True, False)):
                 raise Untranslatable("default value " + ast.unparse(d))
@@ -1663,6 +1786,9 @@ class ModFn(MethFn):
         for a, d in zip(fd.args.kwonlyargs, fd.args.kw_defaults):
             if ast.unparse(a.annotation) != "bool" or not (isinstance(d, ast.Constant) and d.value in (True, False)):
                 raise Untranslatable("keyword-only parameter " + a.arg)
+        nd = len(fd.args.args) - len(fd.args.defaults)
+        METHOD_PARAMS[fd.name] = [(a.arg, None if i < nd else fd.args.defaults[i - nd].value) for i, a in enumerate(fd.args.args)][1:] + \
+            ([(fd.args.vararg.arg, None)] if fd.args.vararg else []) + [(a.arg, d.value) for a, d in zip(fd.args.kwonlyargs, fd.args.kw_defaults)]
         import copy
         fd = copy.deepcopy(fd)
         for n in ast.walk(fd):             # a parameter called url would shadow the Coq type of that name
@@ -1675,8 +1801,13 @@ class ModFn(MethFn):
             raise Untranslatable("parameters of " + fd.name)
         env = {"self": "url"}
         ps = ["(self : url)"]
-        for a in list(args[1:]) + list(fd.args.kwonlyargs):
-            if self.portarg and a.arg == "port":
+        if qsig:
+            env["args"] = env["kwargs"] = "qargs"
+            ps.append("(q : qarg)")
+        for a in list(args[1:]) + ([fd.args.vararg] if fd.args.vararg and not qsig else []) + list(fd.args.kwonlyargs):
+            if a is fd.args.vararg:
+                t, ct = "strs", "list str"
+            elif self.portarg and a.arg == "port":
                 t, ct = "portarg", "portarg"
             elif ast.unparse(a.annotation).strip("'\"") == "URL":
                 t, ct = "url", "url"
@@ -1690,7 +1821,300 @@ class ModFn(MethFn):
         body = self.stmts(list(fd.body), env, {})
         base = {"url": "url", "strs": "list str", "str": "str", "bool": "bool", "optstr": "option str", "optint": "option N"}[self.rtype]
         rt = f"result ({base})" if self.fallible else base
-        return f"Definition gen_{fd.name.strip('_')} {' '.join(ps)} : {rt} :=\n  {body}.", ([], self.rett)
+        return f"Definition gen_{cn(fd.name)} {' '.join(ps)} : {rt} :=\n  {body}.", ([], self.rett)
+
+
+class BuildFn(ModFn):
+    """URL.build of yarl/_url.py: a classmethod with keyword-only parameters, read as a function of the
+    model's record of arguments (Model/Url.v: build_args; the harness passes every argument, the defaults
+    must be the pinned ones).  Two semantics-preserving rewrites first: [x = f(y) if c else e] is
+    [if c: x = f(y) else: x = e] (so that a callee that may raise is a statement) and [self._x = y = e] is
+    [y = e; self._x = y].  The int argument [port] is a Z once the type test has passed (PInt) and is read as
+    the natural number Z.to_N where it is printed or compared, which is exact after the range check."""
+
+    PARAMS = [("scheme", "str", "''"), ("authority", "str", "''"), ("user", "optstr", "None"), ("password", "optstr", "None"),
+              ("host", "str", "''"), ("port", "portarg", "None"), ("path", "str", "''"), ("query", "qarg", "None"),
+              ("query_string", "str", "''"), ("fragment", "str", "''"), ("encoded", "bool", "False")]
+    ANN = {"str": "str", "optstr": "Union[str, None]", "portarg": "Union[int, None]", "qarg": "Union[Query, None]", "bool": "bool"}
+
+    def __init__(self):
+        super().__init__("rurl", {})
+        self.portarg = True
+
+    def expr(self, e, env):
+        # a field of the record under construction that has been stored already
+        if isinstance(e, ast.Attribute) and isinstance(e.value, ast.Name) and env.get(e.value.id) == "self" and e.attr in getattr(self, "cur_rec", {}) \
+                and e.attr != "_cache":
+            return self.cur_rec[e.attr], "str"
+        if isinstance(e, ast.JoinedStr):
+            parts = []
+            for v in e.values:
+                if isinstance(v, ast.Constant):
+                    parts.append(lit(v.value))
+                elif isinstance(v, ast.FormattedValue) and v.conversion == -1 and v.format_spec is None:
+                    t, tt = self.expr(v.value, env)
+                    if tt == "str":
+                        parts.append(t)
+                    elif tt == "int":
+                        parts.append(f"str_of_N {t}")
+                    elif tt == "zint":            # an int argument that has passed the range check 0..65535
+                        parts.append(f"str_of_N (Z.to_N {t})")
+                    else:
+                        raise Untranslatable("f-string field of type " + tt + ": " + ast.unparse(e))
+                else:
+                    raise Untranslatable("f-string " + ast.unparse(e))
+            return "(" + " ++ ".join(parts or ["[]"]) + ")", "str"
+        return super().expr(e, env)
+
+    def cond_bool(self, test, env):
+        if isinstance(test, ast.Attribute) and isinstance(test.value, ast.Name) and env.get(test.value.id) == "self":
+            a, ta = self.expr(test, env)
+            return f"(nonempty {a})"
+        if isinstance(test, ast.Compare) and len(test.ops) == 1 and isinstance(test.ops[0], (ast.Is, ast.IsNot)) and isinstance(test.left, ast.Name) \
+                and env.get(test.left.id) in ("zint", "pbool") and isinstance(test.comparators[0], ast.Constant) and test.comparators[0].value is None:
+            return "false" if isinstance(test.ops[0], ast.Is) else "true"
+        # n == DEFAULT_PORTS.get(scheme)   with n an int argument already range-checked
+        if isinstance(test, ast.Compare) and len(test.ops) == 1 and isinstance(test.ops[0], ast.Eq) and isinstance(test.left, ast.Name) \
+                and env.get(test.left.id) == "zint" and isinstance(test.comparators[0], ast.Call) \
+                and ast.unparse(test.comparators[0].func) == "DEFAULT_PORTS.get" and len(test.comparators[0].args) == 1:
+            b, tb = self.expr(test.comparators[0].args[0], env)
+            if tb == "str":
+                return f"(opt_N_eqb (Some (Z.to_N {test.left.id})) (default_port {b}))"
+        # x[:1] != "c"
+        if isinstance(test, ast.Compare) and len(test.ops) == 1 and isinstance(test.ops[0], (ast.Eq, ast.NotEq)) and isinstance(test.left, ast.Subscript) \
+                and ast.unparse(test.left.slice) == ":1" and isinstance(test.left.value, ast.Name) and env.get(test.left.value.id) == "str" \
+                and isinstance(test.comparators[0], ast.Constant) and isinstance(test.comparators[0].value, str):
+            c = f"(str_eqb (firstn 1 {test.left.value.id}) {lit(test.comparators[0].value)})"
+            return c if isinstance(test.ops[0], ast.Eq) else f"(negb {c})"
+        if isinstance(test, ast.Name):
+            t = env.get(test.id)
+            if t == "optstr":                 # inside and/or only: a bare [if x:] narrows instead (branch)
+                return f"(opt_truthy {test.id})"
+            if t == "zint":
+                return f"(negb (Z.eqb {test.id} 0%Z))"
+            if t == "portarg":
+                return f"(port_truthy {test.id})"
+            if t == "qarg":
+                return f"(qarg_truthy {test.id})"
+            if t == "pbool":
+                return test.id
+        return super().cond_bool(test, env)
+
+    CALLEES = dict(ModFn.CALLEES)
+    CALLEES["get_str_query"] = ("get_query B", [("query", "qarg", None)], "optstr", True)
+
+    # ---- a block that only computes one variable (or one field): one let / bind, no copy of the continuation
+    def is_msg(self, st):
+        return isinstance(st, ast.Assign) and len(st.targets) == 1 and isinstance(st.targets[0], ast.Name) and st.targets[0].id == "msg" \
+            and isinstance(st.value, ast.Constant) and isinstance(st.value.value, str)
+
+    def tree_target(self, stmts):
+        for st in stmts:
+            if self.is_msg(st) or isinstance(st, ast.Raise):
+                continue
+            if isinstance(st, ast.If):
+                for blk in (st.body, st.orelse):
+                    try:
+                        return self.tree_target(blk)
+                    except Untranslatable:
+                        pass
+                continue
+            if isinstance(st, ast.Assign) and len(st.targets) == 1:
+                t = st.targets[0]
+                if isinstance(t, ast.Name):
+                    return ("name", t.id)
+                if isinstance(t, ast.Attribute) and isinstance(t.value, ast.Name) and t.attr in self.FIELDS and t.attr != "_cache":
+                    return ("field", t.attr)
+            raise Untranslatable("not an assignment block")
+        raise Untranslatable("not an assignment block")
+
+    def tree(self, stmts, env, target, want, types, fallible):
+        """text of the value the block gives the target; types collects the leaf types (first pass: want None)"""
+        def leaf(text, t):
+            types.append(t)
+            if want is not None:
+                text = self.coerce(text, t, want)
+            return f"(Ok {text})" if (want is not None and fallible) else text
+        stmts = [st for st in stmts if not self.is_msg(st)]
+        if not stmts:                                   # the end of the block: the target as it is now
+            if target[0] == "field":
+                if "%field" not in env:
+                    raise Untranslatable("a path that does not store the field")
+                return leaf("field_value", env["%field"])
+            if target[1] not in env:
+                raise Untranslatable("a path that does not assign " + target[1])
+            t = env[target[1]]
+            return leaf("None" if t == "none" else target[1], t)
+        st, rest = stmts[0], stmts[1:]
+        if isinstance(st, ast.Raise) and isinstance(st.exc, ast.Call) and isinstance(st.exc.func, ast.Name) \
+                and st.exc.func.id in ("ValueError", "TypeError") and st.cause is None:
+            fallible.append(True)
+            return f"(Err {st.exc.func.id})"
+        if isinstance(st, ast.If):
+            return self.branch(st.test, env, lambda e1: self.tree(list(st.body) + rest, e1, target, want, types, fallible),
+                               lambda e1: self.tree(list(st.orelse) + rest, e1, target, want, types, fallible))
+        if not (isinstance(st, ast.Assign) and len(st.targets) == 1 and self.tree_target([st]) == target):
+            raise Untranslatable("not an assignment block")
+        v = st.value
+        if isinstance(v, ast.IfExp):                    # x = a if c else b   is   if c: x = a else: x = b
+            mk = lambda val: [ast.Assign(targets=st.targets, value=val)]
+            return self.tree([ast.If(test=v.test, body=mk(v.body), orelse=mk(v.orelse))] + rest, env, target, want, types, fallible)
+        name = target[1] if target[0] == "name" else "field_value"
+        key = target[1] if target[0] == "name" else "%field"
+        e1 = dict(env)
+        call = None
+        if isinstance(v, ast.BoolOp) and isinstance(v.op, ast.Or) and len(v.values) == 2 and isinstance(v.values[1], ast.Constant) \
+                and v.values[1].value == "" and isinstance(v.values[0], ast.Call) and isinstance(v.values[0].func, ast.Name) \
+                and v.values[0].func.id == "get_str_query":
+            call, tcall = f"(match {self.call_text(v.values[0], env)} with Err e => Err e | Ok r0 => Ok (opt_or_empty r0) end)", "str"
+        elif isinstance(v, ast.Call) and isinstance(v.func, ast.Name) and v.func.id in self.CALLEES and self.CALLEES[v.func.id][3]:
+            tcall = self.CALLEES[v.func.id][2]
+            if isinstance(tcall, tuple):
+                raise Untranslatable("tuple-valued callee in an assignment block")
+            call = self.call_text(v, env)
+        if call is not None:
+            fallible.append(True)
+            e1[key] = tcall
+            return f"(match {call} with Err e => Err e | Ok {name} => {self.tree(rest, e1, target, want, types, fallible)} end)"
+        x, tx = self.expr(v, env)
+        e1[key] = tx
+        if tx == "none":
+            return self.tree(rest, e1, target, want, types, fallible)
+        return f"(let {name} : {self.COQ2(tx)} := {x} in {self.tree(rest, e1, target, want, types, fallible)})"
+
+    def assign_tree(self, blk, env, rec, rest):
+        target = self.tree_target(blk)
+        types, fallible = [], []
+        self.tree(blk, env, target, None, types, fallible)           # first pass: the leaf types, whether anything may raise
+        if not types:
+            raise Untranslatable("a block that always raises")
+        t = types[0]
+        for u in types[1:]:
+            t = self.join(t, u)
+        if target[0] == "field" and t != "str":
+            raise Untranslatable("field of type " + t)
+        text = self.tree(blk, env, target, t, [], fallible)
+        e1, r1 = dict(env), dict(rec)
+        if target[0] == "name":
+            name = target[1]
+            e1[name] = t
+            if t == "none" and not fallible:
+                return self.stmts(rest, e1, rec)
+        else:
+            if target[1] in rec:
+                raise Untranslatable("field " + target[1])
+            name = "f" + target[1]
+            r1[target[1]] = name
+        if fallible:
+            return f"(match {text} with Err e => Err e | Ok {name} => {self.stmts(rest, e1, r1)} end)"
+        return f"(let {name} : {self.COQ2(t)} := {text} in {self.stmts(rest, e1, r1)})"
+
+    def stmts(self, body, env, rec):
+        self.cur_rec = rec
+        if body and (isinstance(body[0], ast.If) or (isinstance(body[0], ast.Assign) and isinstance(body[0].value, ast.IfExp))):
+            try:
+                return self.assign_tree([body[0]], env, rec, body[1:])
+            except Untranslatable:
+                self.cur_rec = rec
+        # x = get_str_query(q) or ""
+        if body and isinstance(body[0], ast.Assign) and len(body[0].targets) == 1 and isinstance(body[0].targets[0], ast.Name) \
+                and isinstance(body[0].value, ast.BoolOp) and isinstance(body[0].value.op, ast.Or) and len(body[0].value.values) == 2 \
+                and isinstance(body[0].value.values[1], ast.Constant) and body[0].value.values[1].value == "" \
+                and isinstance(body[0].value.values[0], ast.Call) and isinstance(body[0].value.values[0].func, ast.Name) \
+                and body[0].value.values[0].func.id == "get_str_query":
+            call = self.call_text(body[0].value.values[0], env)
+            x = body[0].targets[0].id
+            e1 = dict(env)
+            e1[x] = "str"
+            return f"(match {call} with Err e => Err e | Ok r0 => (let {x} : str := opt_or_empty r0 in {self.stmts(body[1:], e1, rec)}) end)"
+        # x: Union[str, None] = None
+        if body and isinstance(body[0], ast.AnnAssign) and isinstance(body[0].target, ast.Name) and isinstance(body[0].value, ast.Constant) \
+                and body[0].value.value is None and ast.unparse(body[0].annotation) == "Union[str, None]":
+            e1 = dict(env)
+            e1[body[0].target.id] = "none"
+            return self.stmts(body[1:], e1, rec)
+        # the record: self = object.__new__(URL); self._x = e; return self   (ProcFn's reading)
+        if body and isinstance(body[0], ast.Assign) and len(body[0].targets) == 1 and (
+                ast.unparse(body[0].value) == "object.__new__(URL)"
+                or (isinstance(body[0].targets[0], ast.Attribute) and isinstance(body[0].targets[0].value, ast.Name)
+                    and env.get(body[0].targets[0].value.id) == "self")):
+            return ProcFn.stmts(self, body, env, rec)
+        if body and isinstance(body[0], ast.Return) and isinstance(body[0].value, ast.Name) and env.get(body[0].value.id) == "self":
+            return ProcFn.stmts(self, body, env, rec)
+        if body and isinstance(body[0], ast.Assign) and len(body[0].targets) == 1 and isinstance(body[0].targets[0], ast.Tuple) \
+                and isinstance(body[0].value, ast.Call) and isinstance(body[0].value.func, ast.Name) and body[0].value.func.id in self.CALLEES:
+            return ProcFn.stmts(self, body, env, rec)
+        # return build_pre_encoded_url(scheme, authority, user, password, host, port, path, query_string, fragment)
+        if body and isinstance(body[0], ast.Return) and isinstance(body[0].value, ast.Call) and isinstance(body[0].value.func, ast.Name) \
+                and body[0].value.func.id == "build_pre_encoded_url" and not body[0].value.keywords and len(body[0].value.args) == 9 \
+                and all(isinstance(x, ast.Name) for x in body[0].value.args):
+            want = ["str", "str", "optstr", "optstr", "str", "optint", "str", "str", "str"]
+            args = []
+            for x, w in zip(body[0].value.args, want):
+                args.append(self.opt_coerce(x.id, env.get(x.id), w))
+            return "(gen_build_pre_encoded_url " + " ".join(args) + ")"
+        return super().stmts(body, env, rec)
+
+    def opt_coerce(self, x, have, want):
+        if have == want:
+            return x
+        if have == "none" and want in ("optstr", "optint"):
+            return "None"
+        if (have, want) == ("str", "optstr") or (have, want) == ("int", "optint"):
+            return f"(Some {x})"
+        if (have, want) == ("zint", "optint"):
+            return f"(Some (Z.to_N {x}))"
+        raise Untranslatable(f"argument {x} of type {have} where {want} is expected")
+
+    def COQ2(self, t):
+        return {"zint": "Z", "pbool": "bool", "qarg": "qarg", "portarg": "portarg"}.get(t) or super().COQ2(t)
+
+    def branch(self, test, env, then_k, else_k):
+        if isinstance(test, ast.Name) and env.get(test.id) == "optstr":
+            x = test.id
+            e1 = dict(env)
+            e1[x] = "str"
+            return f"(match {x} with Some ((_ :: _) as {x}) => {then_k(e1)} | _ => {else_k(env)} end)"
+        return super().branch(test, env, then_k, else_k)
+
+    def join(self, ta, tb):
+        if {ta, tb} == {"none", "zint"} or {ta, tb} == {"optint", "zint"}:
+            return "optint"
+        return super().join(ta, tb)
+
+    def rewrite(self, body):
+        out = []
+        for st in body:
+            if isinstance(st, ast.If):
+                st = ast.If(test=st.test, body=self.rewrite(st.body), orelse=self.rewrite(st.orelse))
+            elif isinstance(st, ast.Assign) and len(st.targets) == 1 and isinstance(st.targets[0], ast.Name) and isinstance(st.value, ast.IfExp) \
+                    and any(isinstance(n, ast.Call) and isinstance(n.func, ast.Name) and self.CALLEES.get(n.func.id, (0, 0, 0, False))[3]
+                            for n in ast.walk(st.value)):
+                st = ast.If(test=st.value.test, body=[ast.Assign(targets=st.targets, value=st.value.body)],
+                            orelse=[ast.Assign(targets=st.targets, value=st.value.orelse)])
+            elif isinstance(st, ast.Assign) and len(st.targets) == 2 and isinstance(st.targets[0], ast.Attribute) and isinstance(st.targets[1], ast.Name):
+                # self._x = y = e   is   y = e; self._x = y
+                out.append(ast.fix_missing_locations(ast.Assign(targets=[st.targets[1]], value=st.value)))
+                st = ast.Assign(targets=[st.targets[0]], value=ast.Name(id=st.targets[1].id, ctx=ast.Load()))
+            out.append(ast.fix_missing_locations(st))
+        return out
+
+    def translate(self, fd):
+        if [ast.unparse(d) for d in fd.decorator_list] != ["classmethod"]:
+            raise Untranslatable("decorators of build")
+        a = fd.args
+        if a.vararg or a.kwarg or a.posonlyargs or a.defaults or [x.arg for x in a.args] != ["cls"]:
+            raise Untranslatable("signature of build")
+        got = [(x.arg, ast.unparse(x.annotation), ast.unparse(d)) for x, d in zip(a.kwonlyargs, a.kw_defaults)]
+        if got != [(n, self.ANN[t], d) for n, t, d in self.PARAMS]:
+            raise Untranslatable("keyword parameters of build")
+        env = {n: t for n, t, _ in self.PARAMS}
+        import copy
+        body = self.rewrite(copy.deepcopy(list(fd.body)))
+        text = self.stmts(body, env, {})
+        lets = " ".join(f"let {n} := b_{n} a in" for n, _, _ in self.PARAMS)
+        return f"Definition gen_build (a : build_args) : result gen_url :=\n  {lets}\n  {text}.", ([], "rgen")
+
 
 
 class ParseFn(ProcFn):
@@ -1957,7 +2381,240 @@ class HostFn(ParseFn):
             env[a.arg] = t
             ps.append(f"({a.arg} : {t})")
         body = self.stmts(list(fd.body), env, {})
-        return f"Definition gen_{fd.name.strip('_')} {' '.join(ps)} : result str :=\n  {body}.", ([], "rstr")
+        return f"Definition gen_{cn(fd.name)} {' '.join(ps)} : result str :=\n  {body}.", ([], "rstr")
+
+
+class DispatchFn:
+    """Functions that dispatch on the dynamic type of one argument (yarl/_query.py: query_var,
+    get_str_query).  The argument is a value of one of the model's sum types (Model/Query.v: qvar, qarg -
+    what the harness's encoding of a Python value means); the body must be a chain of [if TEST: ...]
+    statements ending in [return EXPR] / [raise ValueError|TypeError(message)], read as a decision tree
+    (the rest of the function is the continuation of every branch that does not return).  TESTs are
+    and/or/not combinations of the ATOMS of the table below - each a type test on the dispatch variable,
+    read as the predicate on the sum type (Model/GenTypes.v) - and EXPRs come from the table RETURNS.
+    [type(x) is T] (exact type, where the model's constructor also stands for the subclasses) is read as
+    [exact_T && is_T x] with exact_T a PARAMETER of the generated function: the equality theorem is
+    for every value of it, so the exact-type branch and the general one must both do what the model says.
+    [cls = type(v)], [if TYPE_CHECKING: assert ...], bare annotations, [msg = "literal"] and - for
+    get_str_query - the argument-count prelude (exactly the pinned statement: kwargs, or one
+    positional argument; the model's single argument stands for it) are skipped.  Order of the tests,
+    the branch each value takes, the exception types and the callees are all taken from the source."""
+
+    SPECS = {
+        "query_var": dict(
+            sig="(v : qvar) : result str", var="v", alias="cls = type(v)", prelude=None,
+            atoms={"cls is int": "(qv_is_int v)", "issubclass(cls, str)": "(qv_is_str v)", "cls is float": "(qv_is_float v)",
+                   "issubclass(cls, float)": "(qv_is_float v)", "math.isinf(v)": "(qv_is_inf v)", "math.isnan(v)": "(qv_is_nan v)",
+                   "cls is not bool": "(negb (qv_is_bool v))",
+                   # isinstance of the CLASS object against SupportsInt: no class of the model's universe has __int__ as a class
+                   "isinstance(cls, SupportsInt)": "false"},
+            returns={"str(v)": "(Ok (qv_text v))", "v": "(Ok (qv_text v))", "str(float(v))": "(Ok (qv_text v))", "str(int(v))": "(Ok (qv_text v))"}),
+        "update_query": dict(
+            sig="(self : url) (q : qarg) : result url", var="in_query", alias=None,
+            prelude="if kwargs:\n    if args:\n        msg = 'Either kwargs or single query parameter must be present'\n        raise ValueError(msg)\n"
+                    "    in_query = kwargs\nelif len(args) == 1:\n    in_query = args[0]\nelse:\n    raise ValueError('Either kwargs or single query parameter must be present')",
+            atoms={"in_query is None": "(qa_is_none q)", "in_query": "(qarg_truthy q)", "isinstance(in_query, Mapping)": "(qa_is_map q)",
+                   "isinstance(in_query, str)": "(qa_is_str q)", "isinstance(in_query, (bytes, bytearray, memoryview))": "(qa_is_bytes q)",
+                   "isinstance(in_query, Sequence)": "(qa_is_seq q || qa_is_str q || qa_is_bytes q)"},
+            returns={}, method=True,
+            # MultiDict(self._parsed_query) is the list of decoded (key, value) pairs; X.update(...) is Model/Query.md_update
+            updates={"in_query": "(qa_items q)", "parse_qsl(in_query, keep_blank_values=True)": "(map qv_of_str (parse_qsl (qa_text q)))"},
+            serial={"get_str_query_from_sequence_iterable": "str_query_from_seq_items (Q B QUERY_PART_QUOTER)",
+                    "get_str_query_from_iterable": "str_query_from_items (Q B QUERY_PART_QUOTER)"}),
+        "get_str_query": dict(
+            sig="(exact_dict exact_str : bool) (q : qarg) : result (option str)", var="query", alias=None,
+            prelude="if kwargs:\n    if args:\n        msg = 'Either kwargs or single query parameter must be present'\n        raise ValueError(msg)\n"
+                    "    query = kwargs\nelif len(args) == 1:\n    query = args[0]\nelse:\n    raise ValueError('Either kwargs or single query parameter must be present')",
+            atoms={"query is None": "(qa_is_none q)", "query": "(qarg_truthy q)", "type(query) is dict": "(exact_dict && qa_is_map q)",
+                   "type(query) is str": "(exact_str && qa_is_str q)", "isinstance(query, str)": "(qa_is_str q)",
+                   "isinstance(query, Mapping)": "(qa_is_map q)", "isinstance(query, (bytes, bytearray, memoryview))": "(qa_is_bytes q)",
+                   "isinstance(query, Sequence)": "(qa_is_seq q || qa_is_str q || qa_is_bytes q)"},
+            returns={"None": "(Ok None)", "''": "(Ok (Some []))",
+                     "get_str_query_from_sequence_iterable(query.items())":
+                         "(match str_query_from_seq_items (Q B QUERY_PART_QUOTER) (qa_items q) with Err e => Err e | Ok s0 => Ok (Some s0) end)",
+                     "QUERY_QUOTER(query)": "(Ok (Some (Q B QUERY_QUOTER (qa_text q))))",
+                     "get_str_query_from_iterable(query)":
+                         "(match str_query_from_items (Q B QUERY_PART_QUOTER) (qa_items q) with Err e => Err e | Ok s0 => Ok (Some s0) end)"}),
+    }
+
+    def test(self, t, spec):
+        if isinstance(t, ast.BoolOp):
+            parts = [self.test(v, spec) for v in t.values]
+            return "(" + (" && " if isinstance(t.op, ast.And) else " || ").join(parts) + ")"
+        if isinstance(t, ast.UnaryOp) and isinstance(t.op, ast.Not):
+            return f"(negb {self.test(t.operand, spec)})"
+        txt = ast.unparse(t)
+        if txt in spec["atoms"]:
+            if "cls" in txt and not self.has_alias:
+                raise Untranslatable("cls used before cls = type(...)")
+            return spec["atoms"][txt]
+        raise Untranslatable("test " + txt)
+
+    def message_only(self, e):
+        for n in ast.walk(e):
+            if isinstance(n, ast.Call) and not (isinstance(n.func, ast.Attribute) and n.func.attr == "format" and isinstance(n.func.value, ast.Constant)):
+                return False
+            if isinstance(n, (ast.NamedExpr, ast.Await, ast.Yield, ast.YieldFrom, ast.Lambda)):
+                return False
+        return True
+
+    def stmts(self, body, spec):
+        if not body:
+            raise Untranslatable("a path falls off the end of the function")
+        st, rest = body[0], body[1:]
+        if isinstance(st, ast.Expr) and isinstance(st.value, ast.Constant) and isinstance(st.value.value, str):
+            return self.stmts(rest, spec)
+        if isinstance(st, ast.AnnAssign) and st.value is None:
+            return self.stmts(rest, spec)
+        if isinstance(st, ast.Assign) and spec["alias"] and ast.unparse(st) == spec["alias"]:
+            self.has_alias = True
+            return self.stmts(rest, spec)
+        if isinstance(st, ast.Assign) and len(st.targets) == 1 and isinstance(st.targets[0], ast.Name) and st.targets[0].id == "msg" \
+                and isinstance(st.value, ast.Constant) and isinstance(st.value.value, str):
+            return self.stmts(rest, spec)
+        if isinstance(st, ast.If) and spec["prelude"] and not self.bound and ast.unparse(st) == spec["prelude"]:
+            self.bound = True
+            return self.stmts(rest, spec)
+        if isinstance(st, ast.If) and ast.unparse(st.test) == "TYPE_CHECKING" and not st.orelse and all(isinstance(x, ast.Assert) for x in st.body):
+            return self.stmts(rest, spec)
+        if not self.bound:
+            raise Untranslatable("statement before the dispatch variable is bound: " + ast.unparse(st)[:60])
+        if isinstance(st, ast.If):
+            c = self.test(st.test, spec)
+            saved = (set(self.mds), self.has_query)
+            a = self.stmts(list(st.body) + rest, spec)
+            self.mds, self.has_query = set(saved[0]), saved[1]
+            b = self.stmts(list(st.orelse) + rest, spec)
+            self.mds, self.has_query = saved
+            return f"(if {c} then {a} else {b})"
+        if spec.get("method"):
+            # X: MultiDict[...] = MultiDict(self._parsed_query)
+            if isinstance(st, ast.AnnAssign) and isinstance(st.target, ast.Name) and st.value is not None \
+                    and ast.unparse(st.value) == "MultiDict(self._parsed_query)" and ast.unparse(st.annotation).startswith("MultiDict["):
+                x = st.target.id
+                if x in ("self", "q", "query") or x in self.mds:
+                    raise Untranslatable("name " + x)
+                self.mds.add(x)
+                return f"(let {x} : list (str * qval) := map qv_of_str (query_pairs self) in {self.stmts(rest, spec)})"
+            # X.update(<the argument>)
+            if isinstance(st, ast.Expr) and isinstance(st.value, ast.Call) and isinstance(st.value.func, ast.Attribute) and st.value.func.attr == "update" \
+                    and isinstance(st.value.func.value, ast.Name) and st.value.func.value.id in self.mds and len(st.value.args) == 1 \
+                    and not st.value.keywords and ast.unparse(st.value.args[0]) in spec["updates"]:
+                x = st.value.func.value.id
+                return f"(let {x} : list (str * qval) := md_update {x} {spec['updates'][ast.unparse(st.value.args[0])]} in {self.stmts(rest, spec)})"
+            # query = '' / self._query / serialiser(X.items())
+            if isinstance(st, ast.Assign) and len(st.targets) == 1 and isinstance(st.targets[0], ast.Name) and st.targets[0].id == "query":
+                v = st.value
+                self.has_query = True
+                if isinstance(v, ast.Constant) and v.value == "":
+                    return f"(let query : str := [] in {self.stmts(rest, spec)})"
+                if ast.unparse(v) == "self._query":
+                    return f"(let query : str := u_query self in {self.stmts(rest, spec)})"
+                if isinstance(v, ast.Call) and isinstance(v.func, ast.Name) and v.func.id in spec["serial"] and len(v.args) == 1 and not v.keywords \
+                        and isinstance(v.args[0], ast.Call) and isinstance(v.args[0].func, ast.Attribute) and v.args[0].func.attr == "items" \
+                        and not v.args[0].args and isinstance(v.args[0].func.value, ast.Name) and v.args[0].func.value.id in self.mds:
+                    return (f"(match {spec['serial'][v.func.id]} {v.args[0].func.value.id} with Err e => Err e | Ok query => "
+                            f"{self.stmts(rest, spec)} end)")
+                raise Untranslatable("statement " + ast.unparse(st)[:80])
+            if isinstance(st, ast.Return) and self.has_query \
+                    and ast.unparse(st.value) == "from_parts_uncached(self._scheme, self._netloc, self._path, query, self._fragment)":
+                return "(Ok (from_parts (u_scheme self) (u_netloc self) (u_path self) query (u_fragment self)))"
+        if isinstance(st, ast.Return) and st.value is not None:
+            txt = ast.unparse(st.value)
+            if txt in spec["returns"]:
+                return spec["returns"][txt]
+            raise Untranslatable("return " + txt)
+        if isinstance(st, ast.Raise) and isinstance(st.exc, ast.Call) and isinstance(st.exc.func, ast.Name) \
+                and st.exc.func.id in ("ValueError", "TypeError") and st.cause is None and not st.exc.keywords and all(self.message_only(x) for x in st.exc.args):
+            return f"(Err {st.exc.func.id})"
+        raise Untranslatable("statement " + ast.unparse(st)[:80])
+
+    def translate(self, fd):
+        spec = self.SPECS[fd.name]
+        if fd.decorator_list:
+            raise Untranslatable("decorator " + ast.unparse(fd.decorator_list[0]))
+        self.has_alias = False
+        self.bound = spec["prelude"] is None
+        self.mds, self.has_query = set(), False
+        a = fd.args
+        if spec["prelude"] is None:
+            if a.vararg or a.kwarg or a.kwonlyargs or a.posonlyargs or a.defaults or [x.arg for x in a.args] != [spec["var"]]:
+                raise Untranslatable("signature of " + fd.name)
+        elif not (a.vararg and a.kwarg and (a.vararg.arg, a.kwarg.arg) == ("args", "kwargs") and not a.kwonlyargs and not a.posonlyargs
+                  and [x.arg for x in a.args] == (["self"] if spec.get("method") else [])):
+            raise Untranslatable("signature of " + fd.name)
+        body = self.stmts(list(fd.body), spec)
+        return f"Definition gen_{cn(fd.name)} {spec['sig']} :=\n  {body}.", ([], "dispatch")
+
+
+
+class CompFn:
+    """get_str_query_from_iterable / get_str_query_from_sequence_iterable of yarl/_query.py: one list
+    comprehension over (key, value) pairs joined with "&".  Read structurally: [quoter = QUERY_PART_QUOTER];
+    [pairs = [f"{quoter(k)}={quoter(v if type(v) is str else query_var(v))}" for ...]] - the f-string's
+    pieces in order, each field a [quoter(...)] of the key or of the value's text, the text being the
+    value itself when its exact type is str (exact_str && ..., see DispatchFn) and query_var(v) otherwise
+    (a bind: query_var may raise, and the first failure in iteration order is the function's);
+    generators [for k, v in items] (a list/tuple value is then a value of an unsupported type:
+    GenTypes.qval_scalar) or [for k, val in items for v in (val if type(val) is not str and
+    isinstance(val, (list, tuple)) else (val,))] (GenTypes.qval_list); [return "&".join(pairs)]."""
+
+    INNER = "val if type(val) is not str and isinstance(val, (list, tuple)) else (val,)"
+
+    def field(self, e):
+        if not (isinstance(e, ast.Call) and isinstance(e.func, ast.Name) and e.func.id == "quoter" and len(e.args) == 1 and not e.keywords):
+            raise Untranslatable("f-string field " + ast.unparse(e))
+        a = e.args[0]
+        if isinstance(a, ast.Name) and a.id == "k":
+            return None, "Q B QUERY_PART_QUOTER k"
+        if isinstance(a, ast.IfExp) and ast.unparse(a.test) == "type(v) is str" and ast.unparse(a.body) == "v" and ast.unparse(a.orelse) == "query_var(v)":
+            self.n += 1
+            nm = f"s{self.n}"
+            return (nm, "(if (exact_str && qv_is_str v) then Ok (qv_text v) else gen_query_var v)"), f"Q B QUERY_PART_QUOTER {nm}"
+        raise Untranslatable("f-string field " + ast.unparse(e))
+
+    def translate(self, fd):
+        if fd.decorator_list or fd.args.vararg or fd.args.kwarg or fd.args.kwonlyargs or fd.args.posonlyargs or fd.args.defaults \
+                or [a.arg for a in fd.args.args] != ["items"]:
+            raise Untranslatable("signature of " + fd.name)
+        body = list(fd.body)
+        if body and isinstance(body[0], ast.Expr) and isinstance(body[0].value, ast.Constant) and isinstance(body[0].value.value, str):
+            body = body[1:]
+        if len(body) != 3 or ast.unparse(body[0]) != "quoter = QUERY_PART_QUOTER" or ast.unparse(body[2]) != "return '&'.join(pairs)":
+            raise Untranslatable("shape of " + fd.name)
+        st = body[1]
+        if not (isinstance(st, ast.Assign) and len(st.targets) == 1 and ast.unparse(st.targets[0]) == "pairs" and isinstance(st.value, ast.ListComp)
+                and isinstance(st.value.elt, ast.JoinedStr)):
+            raise Untranslatable("statement " + ast.unparse(st)[:80])
+        self.n = 0
+        binds, parts = [], []
+        for v in st.value.elt.values:
+            if isinstance(v, ast.Constant) and isinstance(v.value, str):
+                parts.append(lit(v.value))
+            elif isinstance(v, ast.FormattedValue) and v.conversion == -1 and v.format_spec is None:
+                b, t = self.field(v.value)
+                if b:
+                    binds.append(b)
+                parts.append(t)
+            else:
+                raise Untranslatable("f-string " + ast.unparse(st.value.elt))
+        pair = "Ok (" + " ++ ".join(parts) + ")"
+        for nm, src in reversed(binds):
+            pair = f"(match {src} with Err e => Err e | Ok {nm} => {pair} end)"
+        gens = st.value.generators
+        if any(g.ifs or g.is_async for g in gens):
+            raise Untranslatable("generator condition")
+        if len(gens) == 1 and ast.unparse(gens[0].target) == "(k, v)" and ast.unparse(gens[0].iter) == "items":
+            body = (f"(match mapM (fun kv : str * qval => let '(k, v0) := kv in let v := qval_scalar v0 in {pair}) items with "
+                    f"Err e => Err e | Ok ps => Ok (join [38] ps) end)")
+        elif len(gens) == 2 and ast.unparse(gens[0].target) == "(k, val)" and ast.unparse(gens[0].iter) == "items" \
+                and ast.unparse(gens[1].target) == "v" and ast.unparse(gens[1].iter) == self.INNER:
+            body = (f"(match mapM (fun kv : str * qval => let '(k, val) := kv in mapM (fun v : qvar => {pair}) (qval_list val)) items with "
+                    f"Err e => Err e | Ok ps => Ok (join [38] (concat ps)) end)")
+        else:
+            raise Untranslatable("generators of " + fd.name)
+        return f"Definition gen_{cn(fd.name)} (exact_str : bool) (items : list (str * qval)) : result str :=\n  {body}.", ([], "comp")
+
 
 
 class PinnedFn:
@@ -2018,16 +2675,24 @@ SOURCES = [
      [("split_netloc", "(netloc : str) : result (option str * option str * option str * option N)", "Err OtherError", "parse")]),
     ("_quoters.py", "QuotersGen", "From Yarl Require Export Base.PyStr Base.Utf8 Generated.Tables Model.Parse Model.Host Model.Url.", (),
      [("human_quote", "(s unsafe : str) : result str", "Err OtherError", "pinned")]),
+    ("_query.py", "QueryGen",
+     "From Yarl Require Export Base.PyStr Generated.Tables Model.Parse Model.Host Model.Quoters Model.Url Model.GenTypes Model.GenQTypes.\nSection G.\nVariable B : backend.", (),
+     [("query_var", "(v : qvar) : result str", "Err OtherError", "dispatch"),
+      ("get_str_query_from_sequence_iterable", "(exact_str : bool) (items : list (str * qval)) : result str", "Err OtherError", "comp"),
+      ("get_str_query_from_iterable", "(exact_str : bool) (items : list (str * qval)) : result str", "Err OtherError", "comp"),
+      ("get_str_query", "(exact_dict exact_str : bool) (q : qarg) : result (option str)", "Err OtherError", "dispatch")]),
     ("_url.py", "HostGen",
      "From Yarl Require Export Base.PyStr Generated.Tables Model.Parse Model.Host.\nSection G.\nVariable O : oracles.", (),
      [("_idna_encode", "(host : str) : result str", "Err OtherError", "pinned"),
       ("_idna_decode", "(raw : str) : result str", "Err OtherError", "pinned"),
       ("_encode_host", "(host : str) (validate_host : bool) : result str", "Err OtherError", "host")]),
     ("_url.py", "UrlGen",
-     "From Coq Require Import ZArith.\nFrom Yarl Require Export Base.PyStr Generated.Tables Model.Parse Model.Host Model.Quoters Model.Path Model.Url Model.GenTypes.\n"
+     "From Coq Require Import ZArith.\nFrom Yarl Require Export Base.PyStr Generated.Tables Model.Parse Model.Host Model.Quoters Model.Path Model.Url Model.GenTypes Model.GenQTypes.\n"
      "Section G.\nVariable O : oracles.\nVariable B : backend.", (),
      [("encode_url", "(url_str : str) : result gen_url", "Err OtherError", "proc"),
       ("pre_encoded_url", "(url_str : str) : result gen_url", "Err OtherError", "proc"),
+      ("build_pre_encoded_url", "(scheme authority : str) (user password : option str) (host : str) (port : option N) (path query_string fragment : str) : result gen_url", "Err OtherError", "proc"),
+      ("from_parts_uncached", "(scheme netloc path query fragment : str) : result gen_url", "Err OtherError", "proc"),
       ("URL.__str__", "(self : url) : result str", "Err OtherError", "meth", "rstr"),
       ("URL.__eq__", "(self other : url) : bool", "false", "meth", "bool"),
       ("URL._cmp_val", "(self : url) : list str", "[]", "meth", "strs"),
@@ -2081,7 +2746,17 @@ SOURCES = [
       ("URL.suffix", "(self : url) : result str", "Err OtherError", "mod", "rstr"),
       ("URL.raw_suffixes", "(self : url) : result (list str)", "Err OtherError", "mod", "rstrs"),
       ("URL.suffixes", "(self : url) : result (list str)", "Err OtherError", "mod", "rstrs"),
-      ("URL.human_repr", "(self : url) : result str", "Err OtherError", "mod", "rstr")]),
+      ("URL.human_repr", "(self : url) : result str", "Err OtherError", "mod", "rstr"),
+      ("URL.is_absolute", "(self : url) : bool", "false", "mod", "bool"),
+      ("URL.scheme", "(self : url) : str", "[]", "mod", "str"),
+      ("URL.raw_authority", "(self : url) : str", "[]", "mod", "str"),
+      ("URL.origin", "(self : url) : result url", "Err OtherError", "mod", "rurl"),
+      ("URL.with_query", "(self : url) (q : qarg) : result url", "Err OtherError", "mod", "rurl"),
+      ("URL.extend_query", "(self : url) (q : qarg) : result url", "Err OtherError", "mod", "rurl"),
+      ("URL.update_query", "(self : url) (q : qarg) : result url", "Err OtherError", "dispatch"),
+      ("URL.without_query_params", "(self : url) (query_params : list str) : result url", "Err OtherError", "mod", "rurl"),
+      ("URL.joinpath", "(self : url) (other : list str) (encoded : bool) : result url", "Err OtherError", "mod", "rurl"),
+      ("URL.__truediv__", "(self : url) (name : str) : result url", "Err OtherError", "mod", "rurl")]),
 ]
 
 
@@ -2096,8 +2771,8 @@ def generate_one(repo, fname, header, tables, wanted):
         for c in tree.body:
             if isinstance(c, ast.ClassDef):
                 for n in c.body:
-                    if isinstance(n, ast.FunctionDef):
-                        fds.setdefault(c.name + "." + n.name, n)
+                    if isinstance(n, ast.FunctionDef) and not any(ast.unparse(d) == "overload" for d in n.decorator_list):
+                        fds[c.name + "." + n.name] = n          # typing stubs aside, the last definition is the method
     except SyntaxError as e:
         fds = {}
         errors.append("syntax error: " + str(e))
@@ -2107,7 +2782,13 @@ def generate_one(repo, fname, header, tables, wanted):
         try:
             if name not in fds:
                 raise Untranslatable("function " + name + " not found")
-            if tree and tree[0] == "pinned":
+            if tree and tree[0] == "build":
+                text, ty = BuildFn().translate(fds[name])
+            elif tree and tree[0] == "comp":
+                text, ty = CompFn().translate(fds[name])
+            elif tree and tree[0] == "dispatch":
+                text, ty = DispatchFn().translate(fds[name])
+            elif tree and tree[0] == "pinned":
                 text, ty = PinnedFn().translate(fds[name])
             elif tree and tree[0] == "host":
                 text, ty = HostFn().translate(fds[name])
@@ -2132,7 +2813,7 @@ def generate_one(repo, fname, header, tables, wanted):
         except Untranslatable as e:
             errors.append(name + ": " + str(e))
             out.append(f"(* TRANSLATION FAILED: {str(e).replace('*)', '* )')} *)")
-            out.append(f"Definition gen_{name.split('.')[-1].strip('_')} {sig} := {stub}.")
+            out.append(f"Definition gen_{cn(name.split('.')[-1])} {sig} := {stub}.")
         out.append("")
     if "Section G." in header:
         out.append("End G.")
